@@ -19,7 +19,7 @@ func c06(tier string) int {
 	progs := num.Programs(tier == "thorough")
 	env.CheckAll(progs, []diffrun.Variant{diffrun.Plain})
 	return finishDiff(env, "C06", tier, start,
-		"one explorer program per numeric type: every (type, operator, operand shape) over all 8-bit values / the boundary grid squared, one digest line per row; a case = one digest line (type/op/shape/row); compared with the native Go toolchain running the same source",
+		"one explorer program per numeric type: every (type, operator, operand shape) over all 8-bit values / the boundary grid squared, one digest line per row; float constants: 16 literals as typed float32 / float64 / complex64 constant operands, stored, widened, compared with and combined with the same value converted at run time, passed, returned and inside composite literals; a case = one digest line (type/op/shape/row); compared with the native Go toolchain running the same source",
 		[]string{"reference = go1.23.5 native build of the same generated source (go 1.20 language level)", "int/uint/uintptr compared as 32-bit via type aliases", "values outside the boundary grids for types wider than 8 bits are not explored"},
 		nil)
 }
